@@ -38,6 +38,9 @@ Proof.
   lia.
 Qed.
 
+Lemma dlen_leN n k : (N.of_nat n < 10 ^ N.of_nat k)%N -> 1 <= k -> dlen n <= k.
+Proof. intros Hn Hk. unfold dlen, dec_N. apply dec_fuel_len_le; assumption. Qed.
+
 Lemma dlen_pos n : 1 <= dlen n.
 Proof. unfold dlen. pose proof (dec_N_nonempty (N.of_nat n)). destruct (dec_N (N.of_nat n)); [congruence | cbn; lia]. Qed.
 
@@ -273,7 +276,7 @@ Proof. destruct rq; apply ser_map_nonempty. Qed.
 
 Lemma req_length tid rq :
   exists b, encode_msg (mkMsg tid (Req rq)) = Some b /\
-            length b = 14 + slen (length tid) + slen (length (method_name rq)) + length (enc_request rq).
+            length b = 17 + slen (length tid) + slen (length (method_name rq)) + length (enc_request rq).
 Proof.
   unfold encode_msg. cbn [m_body m_tid]. eexists. split; [reflexivity|].
   rewrite ser_map_length. filt. cbn [map sum_nat fold_right]. unfold elen. cbn [fst snd]. rewrite !ser_str_len.
@@ -297,24 +300,40 @@ Proof.
   cbn [map sum_nat fold_right]. unfold elen. cbn [fst snd]. rewrite !ser_str_len, !enc_id_length. reflexivity.
 Qed.
 
-(* announce_peer: 129 bytes + the port digits (<= 5) + 18 for implied_port + the token string *)
+(* announce_peer: 120 bytes + (port digits <= 5 | 1 + 18 for implied_port) + the token string;
+   141 + digits(|token|) + |token| at most, reached with implied_port *)
 Theorem announce_query_length own tid ih port token : length tid = 8 ->
   (match port with Some p => (p < 65536)%N | None => True end) ->
   exists b, encode_msg (mkMsg tid (Req (AnnouncePeer own ih port token))) = Some b /\
-            length b <= 149 + dlen (length token) + length token.
+            length b <= 141 + dlen (length token) + length token.
 Proof.
   intros Ht Hp. destruct (req_length tid (AnnouncePeer own ih port token)) as [b [Eb Lb]]. exists b. split; [exact Eb|].
-  rewrite Lb, Ht. cbn [enc_request]. rewrite ser_map_length.
+  rewrite Lb, Ht. cbn [enc_request]. unfold enc_u. rewrite ser_map_length.
+  change (slen 8) with 10.
   destruct port as [p|]; cbn [app]; filt; cbn [map sum_nat fold_right]; unfold elen; cbn [fst snd];
-    rewrite !ser_str_len, !enc_id_length; unfold enc_u; cbn [length]; rewrite ?app_length; cbn [length].
+    rewrite !ser_str_len, ?enc_id_length; cbn [length]; rewrite ?app_length; cbn [length];
+    change (slen (length k_id)) with 4; change (slen id_len) with 23; change (slen (length k_info_hash)) with 11;
+    change (slen (length k_port)) with 6; change (slen (length k_token)) with 7;
+    try change (slen (length k_implied_port)) with 15;
+    cbn [method_name]; change (slen (length s_announce_peer)) with 16; unfold slen.
   - assert (Hd : length (dec_N p) <= 5).
-    { replace p with (N.of_nat (N.to_nat p)) by lia. apply (dlen_le (N.to_nat p) 5); [cbn; lia | lia]. }
-    change (slen (length k_id)) with 4. change (slen id_len) with 23. change (slen (length k_info_hash)) with 11.
-    change (slen (length k_port)) with 6. change (slen (length k_token)) with 7. change (slen 8) with 10.
-    change (slen (length (method_name (AnnouncePeer own ih (Some p) token)))) with 16. unfold slen at 1. lia.
-  - change (slen (length k_id)) with 4. change (slen id_len) with 23. change (slen (length k_info_hash)) with 11.
-    change (slen (length k_port)) with 6. change (slen (length k_token)) with 7. change (slen 8) with 10.
-    change (slen (length k_implied_port)) with 15.
-    change (slen (length (method_name (AnnouncePeer own ih None token)))) with 16.
-    change (length (dec_N 0)) with 1. change (length (ser_int 1)) with 3. unfold slen at 1. lia.
+    { unfold dec_N. apply dec_fuel_len_le; [change (10 ^ N.of_nat 5)%N with 100000%N; lia | lia]. }
+    lia.
+  - change (length (dec_N 0)) with 1. change (length (ser_int 1)) with 3. lia.
 Qed.
+
+(* an announce_peer stays within 1500 bytes as long as the token is at most 1355 bytes *)
+Corollary announce_query_le_1500 own tid ih port token : length tid = 8 ->
+  (match port with Some p => (p < 65536)%N | None => True end) -> length token <= 1355 ->
+  exists b, encode_msg (mkMsg tid (Req (AnnouncePeer own ih port token))) = Some b /\ length b <= 1500.
+Proof.
+  intros Ht Hp Hk. destruct (announce_query_length own tid ih port token Ht Hp) as [b [Eb Lb]].
+  exists b. split; [exact Eb|].
+  pose proof (dlen_leN (length token) 4 ltac:(change (10 ^ N.of_nat 4)%N with 10000%N; lia) ltac:(lia)). lia.
+Qed.
+
+(* ------------------------------------------------------------------ *)
+(* the pinned handler: values were not capped                         *)
+
+Definition uncapped_reply (tid : bytes) (id : N) (vals : list addr) (n4 n6 : list nodeh) (tok : bytes) : msg :=
+  mkMsg tid (Resp (mkResp id vals n4 n6 (Some tok))).
